@@ -125,12 +125,13 @@ func convCheck(s *smf.SMF, src []refsmf.Event) (sig, what string) {
 	wantMeta, wantCh, endTick, hadEOT := oracle(src)
 	var dest smf.SMF
 	before := sp.FromTrack(s.Tracks[0])
+	fmtBefore := s.Format()
 	c := engine.Catch(func() { dest = s.ConvertToSMF1() })
 	if c.Panicked {
 		return c.Sig, "ConvertToSMF1 panicked: " + c.Value
 	}
 	// the source must survive the conversion (it may be converted, written or read again)
-	if len(s.Tracks) != 1 || refsmf.FirstDiff(before, sp.FromTrack(s.Tracks[0])) != "" || s.Format() != 0 {
+	if len(s.Tracks) != 1 || refsmf.FirstDiff(before, sp.FromTrack(s.Tracks[0])) != "" || s.Format() != fmtBefore {
 		return "convert:source-modified", "the source file was changed by converting it"
 	}
 	var dest2 smf.SMF
@@ -454,6 +455,9 @@ func main() {
 			Add2: true, MaxEvents: ctx.Pick(3, 4), MaxTracks: 1},
 		{Name: "conv-tiny-deeper", Cfgs: cfgs[:1], AlName: "tiny", Deltas: []uint32{0, 1}, CloseDeltas: []uint32{0},
 			MaxEvents: ctx.Pick(6, 7), MaxTracks: 1},
+		// a single track under a format-2 header is a single-track file as well
+		{Name: "conv-format-2-source", Cfgs: []sp.Cfg{{Ctor: 2, TF: smf.MetricTicks(480)}}, AlName: "tiny", Deltas: []uint32{0, 1}, CloseDeltas: []uint32{0},
+			MaxEvents: 4, MaxTracks: 1},
 	}
 	type job struct {
 		p   sp.Plan
